@@ -127,6 +127,7 @@ fn dispatch(ctx: &mut dec::Ctx, cmd: &Value) -> Vec<Value> {
         "new" | "newreader" | "decode" | "cleanup" | "append" | "post" => {
             dec::history(ctx, cmd)
         }
+        "threads" => dec::threads(cmd),
         _ => {
             let mut ev = cmd.clone();
             ev["ret"] = json!("harness:unknown-op");
